@@ -695,3 +695,50 @@ def rule_special_first(ctx):
                              "for a linked-block / compressed / chunked / external element this truncates or moves the special header" % f.name)
     ctx.floor("SPECIALFIRST", 3, n, "(HTPupdate calls on access_rec->ddid in hfile.c)")
     return n
+
+
+class _Classless(PathAnalysis):
+    """user = True while the class pointer of the vgroup/vdata being looked at is known to be NULL"""
+
+    def __init__(self, prog, counter, field):
+        super().__init__(prog)
+        self.counter = counter
+        self.field = field
+        self.sites = {}
+
+    def init_user(self, func):
+        return False
+
+    def on_assume(self, func, bid, cond, pol, env, user):
+        c = strip(cond)
+        if kind(c) == "bin" and c[1] in ("==", "!=") and (mem_field(c[2]) or (0, 0))[1] == self.field and is_int(strip(c[3])) and int_val(strip(c[3])) == 0:
+            return (c[1] == "==") == pol
+        return user
+
+    def on_stmt(self, func, bid, idx, stmt, env, user):
+        for x in walk(stmt["e"], True):
+            if x[0] == "incdec" and x[1] == "++" and kind(strip(x[3])) == "var" and strip(x[3])[1] == self.counter:
+                self.sites[x[4]] = self.sites.get(x[4], False) or bool(user)
+        return user
+
+
+def rule_classless_counted(ctx):
+    """CLASSLESS (C08): a Vgroup without a class is a user-created one.  Every place where Vgetvgroups counts user-created
+    vgroups (whole file, and members of a vgroup) must be reachable with `vgclass == NULL`; otherwise enumeration by parent skips
+    objects that enumeration by file reports."""
+    prog = ctx.prog
+    f = prog.func("Vgetvgroups")
+    if f is None:
+        ctx.unrecognised("CLASSLESS", "CLASSLESS:Vgetvgroups", "-", "Vgetvgroups not found")
+        return 0
+    a = _Classless(prog, "user_vgs", "vgclass")
+    a.fails = fail_values(f, prog)
+    a.run(f)
+    for i, (line, ok) in enumerate(sorted(a.sites.items())):
+        key = "CLASSLESS:Vgetvgroups#%d" % (i + 1)
+        if ok:
+            ctx.holds("CLASSLESS", key, f.where(line), "`user_vgs++` is reached for a vgroup whose class is NULL", nontrivial=True)
+        else:
+            ctx.violated("CLASSLESS", key, f.where(line), "this count of user-created vgroups is never reached for a vgroup without a class: such vgroups are skipped in this mode")
+    ctx.floor("CLASSLESS", 2, len(a.sites), "(places where Vgetvgroups counts user-created vgroups)")
+    return len(a.sites)
